@@ -124,6 +124,14 @@ CLAIMED = {
         note=COMMON_NOTE + "float32 narrowing of float fields is protobuf's (values are compared after narrowing). Known finding F6 (lock_command never sets has_code) is listed in known_findings.json.",
         tech="machine-checked proof in Coq (locality of disjoint statement blocks; reflection over the translated IR) + exhaustive argument-subset correspondence validating the translator",
         ref="DESIGN.md §5 C15"),
+    "C18": dict(
+        text="Coq theorems about Model/Reconnect.v (labelled transition system of reconnect_logic.py over a client with adversarial attempt outcomes, inductive invariant preserved by all 8 label kinds): C18_one_attempt_at_a_time (for every history at most one client connect call in flight, exactly while CONNECTING/HANDSHAKING), "
+             "C18_backoff_spec / C18_backoff_capped (wait after the n-th failure = min(round(1.8^n), 60) s for EVERY n >= 1, the exponent cap is invisible; 60 s after auth errors), C18_failure_schedules_backoff, C18_unexpected_end_retries_at_once, C18_expected_end_cools_down (exactly 5 s), C18_timer_exact, C18_time_respects_timer, "
+             "C18_record_ignored_when_connected / C18_record_triggers_attempt_when_waiting, C18_callbacks_alternate (+ shape), C18_stopped_stays_quiet (after stop() returned: no attempt, no listener, no timer until start()). The back-off expression and constants are re-read from the source on every run. "
+             "Tied by adaptive random histories on the real ReconnectLogic (stub client, fake zeroconf, virtual clock): per event the observations and state must equal the extracted model's; the property predicate (causes and times of every attempt with an independent failure count, alternation, in-flight count, stop) is evaluated on the implementation.",
+        note=COMMON_NOTE + "User callbacks return at once and start() is not issued while the connect task holds the lock (the general case with slow callbacks is not modelled); the stub client mirrors APIClient's refusal of a second session. Attempt timing under real network delays is outside the model.",
+        tech="machine-checked proof in Coq (inductive invariant by exhaustive case analysis over the finite control state, arithmetic of the back-off function for all n) + model/implementation correspondence under a virtual clock",
+        ref="DESIGN.md §5 C18"),
     "C19": dict(
         text="Coq theorems C19_start_accepted_iff_free, C19_refused_start_is_noop, C19_accepted_start_is_fresh, C19_command_refused / C19_request_refused (no live authenticated session: connection error, nothing written, nothing changed), "
              "C19_endings_clear / C19_forced_disconnect_clears (stop hook, failed connect phase, returned disconnect() clear the client's reference in the same callback) about Model/Client.v (APIClient bookkeeping over a sequence of Model/Conn.v connections). "
@@ -131,6 +139,13 @@ CLAIMED = {
         note=CONN_NOTE + "Stories use the client sequentially (a new attempt is not started while a coroutine of the previous connection object has not returned); finish_connection is only called in state SOCKET_OPENED. Behaviour outside that (DESIGN.md F12/F13) is recorded, not modelled.",
         tech="machine-checked proof in Coq (case analysis of the client steps over the Conn model) + client-level trace validation over several consecutive sessions; partial (never-wedges is tested at run level, not proved)",
         ref="DESIGN.md §5 C19"),
+    "C20": dict(
+        text="Coq theorems about Model/Resolver.v (mirror of host_resolver.async_resolve_host and zeroconf.ZeroconfManager; ip_address / mDNS / getaddrinfo are oracles, util.py string predicates modelled on strings): C20_literal_verbatim (no lookup, own address), C20_local_name_mdns_first (mDNS first with the name up to the first dot, IPv6 before IPv4, OS resolver iff mDNS gave nothing or failed), "
+             "C20_other_name_os_only, C20_in_order_never_empty / C20_never_returns_empty / C20_calls_in_order (for all host lists and oracle outcomes), C20_never_closes_application_instance (for ALL operation sequences on a manager), C20_lookup_closes_what_it_created, C20_lookup_keeps_existing, C20_stop_closes_library_instance, C20_stop_keeps_application_instance. "
+             "Tied by running the real async_resolve_host / ZeroconfManager with fake mDNS and getaddrinfo on host lists x oracle outcomes (exhaustive for single hosts, pairs in thorough) and on all manager operation sequences up to length 4 (6 in thorough), compared with the extracted model and an oracle from the property text.",
+        note=COMMON_NOTE + "ipaddress.ip_address is an oracle (which strings are literals is an input); zeroconf's own behaviour is replaced by fakes.",
+        tech="machine-checked proof in Coq (induction over host lists and over manager operation sequences) + model/implementation correspondence with fake resolvers",
+        ref="DESIGN.md §5 C20"),
 }
 
 NOT_YET = "not yet claimed: model and proof under construction (see DESIGN.md §8 implementation order)"
